@@ -2,7 +2,7 @@
 # usage: selftest/seed_confirm.sh <PROP> <n> [worktree]
 # Confirms a seeded change independently (in a scratch worktree): applies, builds lib+tests, runs ctest, builds and
 # runs the demonstration (must fail), reverts, rebuilds, runs the demonstration again (must pass).
-P=$1; N=$2; WT=${3:-/tmp/wt-$P}; S=/tmp/seeds/$P/$N
+P=$1; N=$2; WT=${3:-/tmp/wt-$P}; S=${SEEDS_DIR:-/tmp/seeds}/$P/$N
 LOG=$S/confirm.log; : > $LOG
 fail() { echo "CONFIRM-FAIL $P/$N: $1" | tee -a $LOG; git -C $WT checkout -- . ; exit 1; }
 git -C $WT checkout -- . || exit 1
